@@ -168,6 +168,11 @@ def run(ctx):
                 n_connect += 1
                 if id(x) not in in_loop:
                     rep.ok("SRV-7", key, "single connection attempt", where=hir.where(x))
+    rep.rule("SRV-8", "a response buffer that outlives one connection is cleared unconditionally before each request is "
+                      "handled (what one client left behind - e.g. a response that could not be written - is never served "
+                      "to the next)", floor=1)
+    rep.rule("SRV-9", "the request buffer of the accumulating read loop holds at least 2048 bytes (a well-formed request head "
+                      "below the documented limit is not dropped as too long)", floor=1)
     n_fns = 0
     accept_loops = 0
     for key, (u, h) in sorted(prog.hir.items()):
@@ -235,6 +240,9 @@ def run(ctx):
                 check_read_loop(rep, key, L, R, parents, inner_ids)
                 check_prefix_scan(rep, key, L, R)
                 check_acc_reset(rep, key, body, loops, L, R)
+                check_request_buffer(rep, key, R)
+        # ---------------- SRV-8
+        check_response_buffer(rep, key, body, loops)
         # ---------------- SRV-4
         if conns:
             check_srv4(rep, key, body, conns)
@@ -593,3 +601,85 @@ def cond_is_zero_test(c, bid):
                 if c["op"] == "<=" and a is l and v == 0:
                     return True
     return False
+
+
+def check_request_buffer(rep, key, R):
+    """SRV-9: the array the request is accumulated in"""
+    import re
+    e = hir.strip_wrappers(R["e"])
+    args = e.get("args", [])
+    if not args:
+        return
+    dest = hir.strip_wrappers(args[0])
+    if dest.get("k") != "index":
+        return
+    base = hir.strip_wrappers(dest["e"])
+    m = re.search(r"\[u8; (\d+)\]", base.get("ty") or "")
+    if not m:
+        return
+    n = int(m.group(1))
+    name = base.get("res", {}).get("local", "?") if base.get("k") == "path" else "?"
+    if n >= 2048:
+        rep.ok("SRV-9", key, "request buffer `%s`" % name, detail={"bytes": n}, where=hir.where(R))
+    else:
+        rep.violation("SRV-9", key, "request buffer `%s`" % name,
+                      "the request head is read into %d bytes: a well-formed GET whose head is longer than that (but within the "
+                      "2048 bytes the exporter promises to accept) is treated as over-long and dropped without an answer" % n,
+                      where=hir.where(R))
+
+
+def check_response_buffer(rep, key, body, loops):
+    """SRV-8: in an accept loop, a call that is handed `&mut X` where X is declared OUTSIDE the loop and later written to
+    the connection: an unconditional `X.clear()` precedes it among the statements of the loop body"""
+    for A in loops:
+        if not any(is_accept_await(n) for (n, _) in direct_nodes(A)):
+            continue
+        n_inst = [0]
+        _check_response_buffer_in(rep, key, A, n_inst)
+        if n_inst[0] == 0:
+            rep.ok("SRV-8", key, "no response buffer outlives a connection", where=hir.where(A))
+
+
+def _check_response_buffer_in(rep, key, A, n_inst):
+    if True:
+        stmts = A["body"].get("stmts", [])
+        declared = set()
+        for x in hir.walk(A["body"], enter_closures=False):
+            if x.get("k") == "let":
+                declared.update(i for _, i in hir.pat_bindings(x["pat"]))
+        cleared = set()
+        for s_ in stmts:
+            x = hir.strip_wrappers(s_) if isinstance(s_, dict) else {}
+            if x.get("k") in ("semi", "expr"):
+                x = hir.strip_wrappers(x.get("e", {}))
+            if x.get("k") == "mcall" and x.get("name") == "clear":
+                r = hir.strip_wrappers(x.get("recv", {}))
+                if r.get("k") == "path" and "id" in r.get("res", {}):
+                    cleared.add(r["res"]["id"])
+                continue
+            # calls (awaited) in this statement that take &mut X of an outer String/Vec
+            for c in hir.walk(s_, enter_closures=False):
+                if c.get("k") != "call":
+                    continue
+                for a in c.get("args", []):
+                    if a.get("k") != "addrof" or not a.get("mut"):
+                        continue
+                    p = hir.strip_wrappers(a.get("e", {}))
+                    if p.get("k") != "path" or "id" not in p.get("res", {}):
+                        continue
+                    xid = p["res"]["id"]
+                    ty = p.get("ty") or ""
+                    if xid in declared or not ("String" in ty or "Vec<u8>" in ty):
+                        continue
+                    construct = "response buffer `%s`" % p["res"].get("local", "?")
+                    n_inst[0] += 1
+                    if xid in cleared:
+                        rep.ok("SRV-8", key, construct, detail="cleared at the top level of the accept loop before the call",
+                               where=hir.where(c))
+                    else:
+                        rep.violation("SRV-8", key, construct,
+                                      "`%s` lives across connections and is handed to %s without an unconditional clear() before "
+                                      "it in the accept loop: whatever an earlier connection left in it (a response that could not "
+                                      "be written) is sent to the next client" % (p["res"].get("local", "?"),
+                                                                                   hir.callee_name(c).split("::")[-1]),
+                                      where=hir.where(c))
